@@ -398,7 +398,7 @@ func (w *World) oracleC17Liveness() {
 		ids[id] = true
 	}
 	// also the names of files that are no container at all: the runtime reports them absent
-	for _, d := range gcDirs {
+	for _, d := range w.gcDirsCfg() {
 		for _, n := range w.FS.List(d) {
 			if !w.FS.IsDir(d + "/" + n) {
 				ids[n] = true
@@ -411,9 +411,19 @@ func (w *World) oracleC17Liveness() {
 			continue
 		}
 		st, _, _ := w.runtimeState(id)
-		for _, d := range gcDirs {
+		for _, d := range w.gcDirsCfg() {
 			if p := d + "/" + id; w.FS.Exists(p) && !w.FS.IsDir(p) {
 				w.fail("C17.liveness", "state-file-left", "two fault-free GC rounds after faults stopped, %s of container %s (runtime: %s) still exists", p, short(id), st)
+				return
+			}
+		}
+		// gc_dirs without the port directory: the port file (and the mapping, below) is reached through the port-clean
+		// callback of the container's other state files; it is owed for a container that had such a file and whose port
+		// file held a readable port list
+		reachable := w.portDirConfigured() || w.gcTriggered[id]
+		if !w.portDirConfigured() && reachable && w.portValid[id] {
+			if p := gcDirs[2] + "/" + id; w.FS.Exists(p) {
+				w.fail("C17.liveness", "state-file-left", "two fault-free GC rounds after faults stopped, %s of container %s (runtime: %s) still exists (gc_dirs=%s)", p, short(id), st, w.cfg.GCDirsFlag)
 				return
 			}
 		}
@@ -425,7 +435,7 @@ func (w *World) oracleC17Liveness() {
 				}
 			}
 		}
-		if c := w.byID[id]; c != nil && !c.resynced && (c.Abandoned || c.Phase == "up" || c.Phase == "delfailed") {
+		if c := w.byID[id]; c != nil && reachable && !c.resynced && (c.Abandoned || c.Phase == "up" || c.Phase == "delfailed") {
 			for _, cm := range c.Mappings {
 				for _, m := range ins {
 					if m == cm && !w.liveUser(m, c) {
@@ -475,6 +485,22 @@ func (w *World) finalPhase() bool {
 		case 0, 1:
 			if w.finalStage == 0 {
 				w.settleSandboxes()
+				for _, d := range w.gcDirsCfg() {
+					for _, n := range w.FS.List(d) {
+						if !w.FS.IsDir(d + "/" + n) {
+							w.gcTriggered[n] = true
+						}
+					}
+				}
+				for _, n := range w.FS.List(gcDirs[2]) {
+					var ps []portJSON
+					if data, ok := w.FS.Get(gcDirs[2] + "/" + n); ok && json.Unmarshal(data, &ps) == nil && len(ps) > 0 {
+						w.portValid[n] = true
+					}
+				}
+				if !w.portDirConfigured() {
+					w.S.Stat("probe.gc-dirs-without-port-dir")
+				}
 			}
 			w.finalStage++
 			w.startGCRound()
